@@ -46,11 +46,11 @@ rm -rf /tmp/seedverif_$NAME
 python3 - "$NAME" "$PROP" "$PKG" "$RUN" "$NEEDS" "$DST" <<'PYEOF'
 import json, sys, re, os
 name, prop, pkg, run, needs, dst = sys.argv[1:7]
-log = open(os.path.join(dst, "confirm.log")).read()
+log = open(os.path.join(dst, "confirm.log"), errors="replace").read()
 det = {}
 for p in prop.split(","):
     f = os.path.join(dst, f"detect_{p}.log")
-    rules = sorted(set(re.findall(r"rule=(\S+)", open(f).read()))) if os.path.exists(f) else []
+    rules = sorted(set(re.findall(r"rule=(\S+)", open(f, errors="replace").read()))) if os.path.exists(f) else []
     det[p] = {"detected": f"check {p}: DETECTED" in log, "reporting_rules": rules}
 meta = {
   "seed": name, "breaks_property": prop.split(",")[0], "checked_against": prop.split(","),
